@@ -423,85 +423,6 @@ func genLoad() {
 		l.bool("edgesAddedInGoroutines", inGo)
 		l.bool("edgesAddedAfterWait", afterWait)
 	}
-	genRootRefRule(l, p)
 	l.write()
 }
 
-// genRootRefRule: how Tasks.Merge renames names and references, and where the
-// ':'-marker of a root reference is resolved.
-//   tasksMergeRenames        (assigned expression, renaming function, its first argument) for every
-//                            call of a task*WithNamespace function in Tasks.Merge, in source order
-//   taskRefWithNamespaceBody the if-conditions and returns of taskRefWithNamespace, in source order
-//   resolveRootRefsAssigns   (lhs, rhs) of every assignment in Tasks.ResolveRootRefs
-//   graphMergeAfterLoop      the top-level statements of TaskfileGraph.Merge after its last for loop
-func genRootRefRule(l *leanFile, p *pkgFiles) {
-	var renames [][3]string
-	if fd := p.funcDecl("Tasks.Merge"); fd != nil && fd.Body != nil {
-		ast.Inspect(fd.Body, func(n ast.Node) bool {
-			as, ok := n.(*ast.AssignStmt)
-			if !ok || len(as.Lhs) != 1 || len(as.Rhs) != 1 {
-				return true
-			}
-			ast.Inspect(as.Rhs[0], func(m ast.Node) bool {
-				c, ok := m.(*ast.CallExpr)
-				if !ok {
-					return true
-				}
-				if id, ok := c.Fun.(*ast.Ident); ok && strings.HasPrefix(id.Name, "task") && strings.HasSuffix(id.Name, "WithNamespace") && len(c.Args) > 0 {
-					renames = append(renames, [3]string{src(as.Lhs[0]), id.Name, src(c.Args[0])})
-				}
-				return true
-			})
-			return true
-		})
-	}
-	rows := make([]string, len(renames))
-	for i, r := range renames {
-		rows[i] = "(" + leanStr(r[0]) + ", " + leanStr(r[1]) + ", " + leanStr(r[2]) + ")"
-	}
-	l.b.WriteString("def tasksMergeRenames : List (String × String × String) := [" + strings.Join(rows, ",\n  ") + "]\n\n")
-
-	var body []string
-	if fd := p.funcDecl("taskRefWithNamespace"); fd != nil && fd.Body != nil {
-		ast.Inspect(fd.Body, func(n ast.Node) bool {
-			switch x := n.(type) {
-			case *ast.IfStmt:
-				body = append(body, "if "+src(x.Cond))
-			case *ast.ReturnStmt:
-				body = append(body, src(x))
-			}
-			return true
-		})
-	}
-	l.strList("taskRefWithNamespaceBody", body)
-
-	var assigns [][2]string
-	if fd := p.funcDecl("Tasks.ResolveRootRefs"); fd != nil && fd.Body != nil {
-		ast.Inspect(fd.Body, func(n ast.Node) bool {
-			if as, ok := n.(*ast.AssignStmt); ok && as.Tok == token.ASSIGN && len(as.Lhs) == 1 && len(as.Rhs) == 1 {
-				assigns = append(assigns, [2]string{src(as.Lhs[0]), src(as.Rhs[0])})
-			}
-			return true
-		})
-	}
-	l.pairList("resolveRootRefsAssigns", assigns)
-
-	var after []string
-	if fd := p.funcDecl("TaskfileGraph.Merge"); fd != nil && fd.Body != nil {
-		last := -1
-		for i, st := range fd.Body.List {
-			if _, ok := st.(*ast.ForStmt); ok {
-				last = i
-			}
-		}
-		if last >= 0 {
-			for _, st := range fd.Body.List[last+1:] {
-				if _, ok := st.(*ast.IfStmt); ok {
-					continue // error checks
-				}
-				after = append(after, src(st))
-			}
-		}
-	}
-	l.strList("graphMergeAfterLoop", after)
-}
